@@ -429,10 +429,22 @@ func (m *Muxer) sender() {
 		}
 	}
 
-	// if we broke out of the loop, consume all packets so tubes can still close
-	for range m.sendQueue {
-	}
-	for range m.prioritySendQueue {
+	// if we broke out of the loop, consume all packets so tubes can still close.
+	// Both queues are drained together: a tube blocked on the (full) priority
+	// queue holds its own lock, so draining sendQueue to its close first would
+	// wait for a Stop that waits for that tube.
+	sendQueue, prioritySendQueue := m.sendQueue, m.prioritySendQueue
+	for sendQueue != nil || prioritySendQueue != nil {
+		select {
+		case _, open := <-sendQueue:
+			if !open {
+				sendQueue = nil
+			}
+		case _, open := <-prioritySendQueue:
+			if !open {
+				prioritySendQueue = nil
+			}
+		}
 	}
 
 	m.log.WithField("error", err).Debug("muxer sender stopped")
